@@ -157,6 +157,22 @@ func TestC20(t *testing.T) {
 			}
 		})
 	}
+	for _, ps3 := range []bool{false, true} {
+		mkCase("tree with files that look like disc images", ps3, func(dir string) {
+			pairs := []uint32{0, 2, 4, 5}
+			plain := patBytes(61, 0, 6*2048)
+			copy(plain, regionTable(pairs))
+			copy(plain[0xF70:], wmEnc)
+			copy(plain[0xF80:], c10Keys[1])
+			writeFileAbs(filepath.Join(dir, "backup", "enc3k3y.iso"), buildEncImage(plain, pairs, c10Keys[1]), baseTime)
+			dec := patBytes(62, 0, 3*2048)
+			copy(dec[0xF70:], wmDec)
+			writeFileAbs(filepath.Join(dir, "backup", "dec3k3y.bin"), dec, baseTime)
+			disk, _ := mkRedumpImage(6, pairs, c10Keys[2], 63)
+			writeFileAbs(filepath.Join(dir, "PS3ISO", "game.iso"), disk, baseTime)
+			writeFileAbs(filepath.Join(dir, "PS3ISO", "game.dkey"), []byte(hex.EncodeToString(c10Keys[2])), baseTime)
+		})
+	}
 	for _, sz := range []int64{65535, 65536, 65537, 131073, 3<<20 + 1} {
 		sz := sz
 		mkCase(sprintf("file-size=%d", sz), false, func(dir string) {
